@@ -312,7 +312,7 @@ fn execute(case: &Case, plan: &[Fault], heal_after_first_failure: bool) -> RunOu
             let h = op.handle();
             // the handle's own idea of its position, before the call
             let mut pos_before: Option<u64> = None;
-            if let (Some(h), Op::HWrite { .. } | Op::HWriteAll { .. }) = (h, op) {
+            if let (Some(h), Op::HWrite { .. } | Op::HWriteAll { .. } | Op::HRead { .. } | Op::HReadFull { .. } | Op::HFillBuf { .. } | Op::HSeek { .. }) = (h, op) {
                 if lib.handles[h].is_some() {
                     if let Res::Num(p) = lib.exec(&Op::HPos { h }) {
                         pos_before = Some(p);
@@ -340,6 +340,34 @@ fn execute(case: &Case, plan: &[Fault], heal_after_first_failure: bool) -> RunOu
                 _ => {}
             }
             let is_err = got.is_err();
+            // (0) a failed read()/fill_buf()/seek() leaves the handle where it was (std::io::Read:
+            // "if an error is returned then it must be guaranteed that no bytes were read"): the
+            // bytes a later write() accepts belong at the position the caller knows, so a cursor
+            // that silently moves stores them somewhere else although flush() says Ok.  For the
+            // read loop (several read() calls) the position may have advanced by what was
+            // delivered before the failing call, never backwards and never beyond the request.
+            if is_err && !fired.is_empty() {
+                if let (Some(hh), Some(pb)) = (h, pos_before) {
+                    let range: Option<(u64, u64)> = match op {
+                        Op::HRead { .. } | Op::HFillBuf { .. } | Op::HSeek { .. } => Some((pb, pb)),
+                        Op::HReadFull { n, .. } => Some((pb, pb + *n as u64)),
+                        _ => None,
+                    };
+                    if let (Some((lo, hi)), true) = (range, lib.handles[hh].is_some()) {
+                        if let Res::Num(pa) = lib.exec(&Op::HPos { h: hh }) {
+                            if pa < lo || pa > hi {
+                                out.violation = Some((
+                                    "position-moved-by-failed-call".into(),
+                                    op.kind().into(),
+                                    format!("step {} {} (attempt {}) failed ({}) and the handle's position went from {} to {}: bytes written next land at the wrong offset", i, op.to_json(), tries, got.brief(), pb, pa),
+                                    i,
+                                ));
+                                break 'ops;
+                            }
+                        }
+                    }
+                }
+            }
             // (1) the call in flight when a write-class fault fired must report it
             if write_fault && !is_err && !matches!(op, Op::HDrop { .. } | Op::Reopen { .. }) {
                 out.violation = Some((
